@@ -33,7 +33,9 @@ def settings(r, bench, i, extreme):
 	if r.random() < 0.6:
 		cmds.append("SETTA %d" % (r.choice((0, 1, 2, 63, -1, 127, -128)) if r.random() < .5 else r.randint(0, 63)))
 	if r.random() < 0.6:
-		cmds.append("SETPOWER %d" % r.choice((0, 1, 5, 10, 20, 30)))
+		# also attenuations beyond the nominal power (50 dBm): the RSSI formula has no floor; with a small
+		# burst attenuation the result is still inside the protocol range
+		cmds.append("SETPOWER %d" % r.choice((0, 1, 5, 10, 20, 30, 45, 50, 51, 55, 60)))
 	if r.random() < 0.6:
 		base = r.choice((0, 1, -1, 256, -256, 1000, 30000 if extreme else 3000, r.randint(-2000, 2000)))
 		cmds.append("FAKE_TOA %d %d" % (base, r.choice((0, 0, 1, 10, 100, 300))))
